@@ -26,8 +26,10 @@ func gen(seed uint64, tier string) []interface{} {
 	for i := 0; i < n; i++ {
 		var c trig.Case
 		switch q := r.Intn(20); {
-		case q < 9:
+		case q < 7:
 			c = trig.GenBoundary(r.Fork(), id, tier)
+		case q < 9:
+			c = trig.GenRefused(r.Fork(), id, tier)
 		case q < 11:
 			c = trig.GenTailReconf(r.Fork(), id, tier)
 		case q < 14:
